@@ -152,6 +152,17 @@ Theorem C15_mlog_ok : forall (t0 f0 : Z) (ops : list op),
 Proof. exact mlog_invariant. Qed.
 Print Assumptions C15_mlog_ok.
 
+(* Every metadata-log entry is one of the versions committed BEFORE the current one (file and the last_updated_ms it
+   carried) and never the current file itself.  The model builds the entry from the current version as resolved
+   (`curfile`), not from the bytes of the version pointer: the harness ties this to the code with histories whose
+   pointer is legacy / padded / dangling / ahead / missing / unreadable at the moment of the commit, and with the
+   newest version file lost while the pointer naming it survives, judging the log against the files on disk. *)
+Theorem C15_mlog_names_superseded : forall (t0 f0 : Z) (ops : list op) (e : Z * Z),
+  fresh_ops f0 ops -> In e (mlog (md (replay t0 f0 ops))) ->
+  In e (removelast (versions_of t0 f0 ops)) /\ snd e <> curfile (replay t0 f0 ops).
+Proof. exact mlog_names_superseded. Qed.
+Print Assumptions C15_mlog_names_superseded.
+
 (* ------------------------------------------------------------------ C09 pieces proved over the same model
    (re-exported by Props/C09.v): lookups by timestamp / by id, and deleting the current snapshot. *)
 
